@@ -10,7 +10,7 @@ HOOKS = {
     "enable": "cargo kani sets --cfg kani itself; the native replayer is built with RUSTFLAGS='--cfg verif_hooks'",
     "baseline_off_cmd": "cd /repo && cargo test --workspace --no-fail-fast --offline",
     "source_commits": ["6a5f543", "a30e7f4"],
-    "fix_commits": ["8964a4c", "7774dd1", "c5a8780", "96afd96", "68fff19"],
+    "fix_commits": ["8964a4c", "7774dd1", "c5a8780", "96afd96", "68fff19", "4101a4e", "d2633a0"],
     "add_only": True,
 }
 
